@@ -173,6 +173,11 @@ def _run(V, work, tier):
         hist.append([rnd.choice(A) for _ in range(rnd.randrange(4, 10))])
     sc = scenarios()
     hist += sc if thorough else rnd.sample(sc[:-18], 90) + sc[-18:]      # the 18 cross-package failure scenarios always run
+    # the MIX family (gen/mix.py): a library package with exported and hidden bindings, cross-package calls, callbacks handed
+    # across the package boundary, qualified references under local bindings - next to macros, handlers and loops
+    import mix
+    for _ in range(300 if thorough else 50):
+        hist.append(mix.mix_program(rnd, depth=rnd.choice([3, 4])))
     recs, drv = [], []
     tail = [[S("probe"), Q(S("end"))]]
     for i, h in enumerate(hist):
